@@ -170,9 +170,17 @@ def worker_main(a):
             with open(os.path.join(a["hs_dir_out"], "%08d.json" % idx), "w") as f:
                 json.dump(rec, f)
         if v is not None:
-            agg["violations"] += 1
-            nviol += 1
             rep = runner.make_replay(prop, seed, idx, ctx, v, hashseed)
+            if known_match(a.get("known") or {}, prop, v.cls, rep) is not None:
+                # a recorded, unrepaired defect: counted, one replay per worker, and the
+                # search goes on (it must not use up the worker's violation allowance)
+                key = "known_finding_hit:" + v.cls
+                agg["stats"][key] = agg["stats"].get(key, 0) + 1
+                if agg["stats"][key] > 1:
+                    continue
+            else:
+                agg["violations"] += 1
+                nviol += 1
             try:
                 rep, ok = runner.shrink(rep, budget_s=a["shrink_budget"])
             except Exception as e:  # shrinking must never hide the violation
@@ -298,6 +306,7 @@ def main_check(prop, tier, seed, runs=None, budget=None, workers=None):
         base = {
             "prop": prop, "seed": seed, "stride": W, "count": per, "deadline": t0 + guard, "hard_timeout": guard * 3 + 300,
             "scratch": scratch, "shrink_budget": 30.0, "max_viol": 3, "digest_runs": 64, "hs_sample": HS_SAMPLE[tier],
+            "known": load_known(),
         }
         if prop == "C14":
             hs_dir = os.path.join(scratch, "hs")
@@ -398,10 +407,14 @@ def finish(prop, tier, seed, t0, scratch, summaries, hs_summ, viols, herr, W, n_
     seen_cls = set()
     harness = list(herr)
     for v in sorted(viols, key=lambda d: (d["cls"], d["run"])):
-        if v["cls"] in seen_cls:
-            continue
-        seen_cls.add(v["cls"])
         rep = json.load(open(v["path"]))
+        # one report per class - and per known finding, so that a recorded defect can never
+        # stand in for a different failure that happens to fall into the same class
+        e0 = known_match(known, prop, v["cls"], rep)
+        key = (v["cls"], e0.get("id") if e0 else None)
+        if key in seen_cls:
+            continue
+        seen_cls.add(key)
         dest_dir = os.path.join(core.OUT_DIR, "replays", prop)
         os.makedirs(dest_dir, exist_ok=True)
         dest = os.path.join(dest_dir, os.path.basename(v["path"]))
